@@ -173,6 +173,21 @@ Section Modes.
       end
     else Ok (set_tree ss c, v)).
 
+  (** ---- a SECOND File object on a path this process already has open -------------------------------
+      HDF5 keeps ONE file object per path and process: a further H5Fopen returns another id of the same
+      shared file, and the access intent is a property of the shared file — that of the FIRST open.
+      H5Fopen(RDWR) of a file that is open read-only fails, H5Fcreate(TRUNC) of an open file fails,
+      H5Fopen(RDONLY) of a file that is open read-write succeeds and yields an id through which HDF5
+      accepts every write.  [ss] is the first session; the second File reports the mode it asked for. *)
+  Definition second_open (ss : session) (mode : FileMode) (comp : Compression) (force : bool)
+    : res (FileMode * Compression) :=
+    if is_ow mode then Err "nix::hdf5::H5Exception"
+    else if negb (is_ro mode) && is_ro (s_mode ss) then Err "nix::hdf5::H5Exception"
+    else bind (checkHeader (f_hdr (s_img ss)) mode (negb force)) (fun _ => Ok (mode, resolve_comp comp)).
+  (** a mutating call through the second File acts on the shared image, and whether HDF5 refuses it is
+      decided by the FIRST session's mode, not by the mode the second File reports *)
+  Definition mutate_second (ss : session) (m : mut) : res (session * val) := mutate ss m.
+
   (** [H5Fflush] / the flush implied by closing: the on-disk file becomes the in-memory image.  A file
       opened read-only has nothing to write. *)
   Definition flush (s : fsys) (ss : session) : fsys :=
